@@ -239,12 +239,16 @@ def run_shard(shard_prop, bins, workdir, tier):
         for i in range(count):
             distinct = i % 3 != 0
             o, cs = sort_case(rng, distinct)
-            ops = ['build 1 ' + to_tn(o), 'order 1', 'sort 1 %d' % cs, 'chk 1', 'tn 1', 'order 1', 'sort 1 %d' % cs, 'tn 1', 'order 1']
+            via = ['sort', 'genp', 'sort', 'genm', 'sort', 'test'][(i // 3) % 6]
+            if via != 'sort' and not distinct:
+                via = 'sort'          # the utilities only make sense on objects with distinct keys
+            sorter = ('sort 1 %d' % cs) if via == 'sort' else ('sortvia %s 1 %d' % (via, cs))
+            ops = ['build 1 ' + to_tn(o), 'order 1', sorter, 'chk 1', 'tn 1', 'order 1', sorter, 'tn 1', 'order 1']
             # continued use: append, insert-free operations that must behave as on any other object
             ops += ['cnum 2 %016x' % 0x4045000000000000, 'addo 1 %s 2' % hx(b'zzz-appended'), 'chk 1', 'tn 1', 'size 1',
                     'deta 1 0 3', 'chk 1', 'chk 3', 'tn 1', 'cobj 5', 'htrue 5 =7265706c 4', 'deta 5 0 6', 'repa 1 0 4' if o.kids else 'addo 1 =7265706c 4', 'chk 1', 'tn 1', 'print 1 0', 'print 1 1', 'del 3', 'del 5', 'del 1']
             cases.append((i, 'default' if i % 2 else 'custom', ops))
-            extra[i] = (o, cs, distinct)
+            extra[i] = (o, cs, distinct, via)
     elif kind == 'faultcfg':
         from . import p_fault
         cid = 0
@@ -370,8 +374,12 @@ def tn_kids(tn):
 
 
 def judge_sort(prop, cl, ex, out, wit, first):
-    o, cs, distinct = ex
+    o, cs, distinct, via = ex
     keyf = (lambda k: k) if cs else fold
+    # SortObject must leave subtrees untouched; the utilities also sort nested objects, so there
+    # subtrees are compared as JSON values
+    from . import rfc as _rfc
+    sub = to_tn if via == 'sort' else (lambda k: (k.key, _rfc.norm_tn(k)))
     tns = [f[1] for idx, f in sorted(cl.ops.items()) if f and f[0] == 'tn']
     orders = [f[1] for idx, f in sorted(cl.ops.items()) if f and f[0] == 'order']
     if len(tns) < 5 or len(orders) < 3:
@@ -379,16 +387,16 @@ def judge_sort(prop, cl, ex, out, wit, first):
         return
     before = {}
     for k in o.kids:
-        before.setdefault(to_tn(k), 0)
-        before[to_tn(k)] += 1
+        before.setdefault(sub(k), 0)
+        before[sub(k)] += 1
     t1 = from_tn(tns[0])
     after = {}
     for k in t1.kids:
-        after.setdefault(to_tn(k), 0)
-        after[to_tn(k)] += 1
+        after.setdefault(sub(k), 0)
+        after[sub(k)] += 1
     if first:
         out.count('size:%d' % len(o.kids))
-        out.count('mode:%s:%s' % ('cs' if cs else 'ci', 'distinct' if distinct else 'dups'))
+        out.count('mode:%s:%s:%s' % (via, 'cs' if cs else 'ci', 'distinct' if distinct else 'dups'))
     if before != after:
         out.vios.append(Violation(prop, 'C19/sort/members-changed', 'multiset of (key, subtree) changed: %d members before, %d after' % (len(o.kids), len(t1.kids)), wit(cl, 2)))
         return
@@ -407,7 +415,7 @@ def judge_sort(prop, cl, ex, out, wit, first):
     if ks2 != [keyf(k) for k in ks]:
         out.vios.append(Violation(prop, 'C19/sort/not-idempotent', 'second sort changed the key sequence', wit(cl, 6)))
         return
-    if distinct and (tns[1] != tns[0] or orders[2] != orders[1]):
+    if distinct and via == 'sort' and (tns[1] != tns[0] or orders[2] != orders[1]):
         out.vios.append(Violation(prop, 'C19/sort/not-idempotent', 'second sort changed the member order although keys are pairwise distinct', wit(cl, 6)))
         return
     # continued use: append -> last member; detach index 0 -> first member gone; replace index 0
@@ -433,7 +441,7 @@ def judge_sort(prop, cl, ex, out, wit, first):
             out.vios.append(Violation(prop, 'C19/after-sort/malformed', 'structural check failed at op %d' % idx, wit(cl, idx)))
             return
     if first and cl.id % 60 == 5:
-        out.sample({'keys_before': [k.key.decode('latin-1') for k in o.kids][:12], 'keys_after': [k.decode('latin-1') for k in ks][:12], 'case_sensitive': bool(cs)})
+        out.sample({'sorted_by': via, 'keys_before': [k.key.decode('latin-1') for k in o.kids][:12], 'keys_after': [k.decode('latin-1') for k in ks][:12], 'case_sensitive': bool(cs)})
 
 
 def judge_deep(prop, cl, ex, out, wit, first, fl):
